@@ -160,6 +160,47 @@ Theorem C09_bridge_example :
 Proof. exact ex_bridge_run. Qed.
 Print Assumptions C09_bridge_example.
 
+(* (1e) placement of connections: the model registers whatever node the target client's control connection is on
+   (C09_waiting_bridge_routable has no hypothesis about it).  The variant of startSourceBridge that skips the publication
+   when that control connection is on the starting node leaves a waiting tunnel unroutable from the other node: *)
+Theorem C09_skip_publication_for_local_target_refuted :
+  let c := cfg_hybrid true 30000000000 in
+  let ctl : nat -> Z -> bool := fun n _ => Nat.eqb n 0 in
+  ex_lookup c (ex_final c (init ex_gstr) (fst (bcalls ex_ix0 (BStart 0 ex_rec)))) 1 (w_tunnel ex_rec)
+    = ROk (stamp ex_rec 0 30000000000)
+  /\ snd (bcalls_skip_local ctl ex_ix0 (BStart 0 ex_rec)) 0%nat (w_tunnel ex_rec) = true
+  /\ ex_lookup c (ex_final c (init ex_gstr) (fst (bcalls_skip_local ctl ex_ix0 (BStart 0 ex_rec)))) 1 (w_tunnel ex_rec)
+    = RNotFound.
+Proof. exact skip_local_target_refuted. Qed.
+Print Assumptions C09_skip_publication_for_local_target_refuted.
+
+(* (2e) the target node's polling lookup (lookupTunnelRouting / handleLocalBridgeWait), target arrives FIRST: it polls through
+   any number of rounds in which anything may happen; the source publishes during some round; then the polling resolves at
+   the latest at the first poll after the publication, with exactly the registered record ... *)
+Theorem C09_poll_resolves_at_first_poll_after_publication :
+  forall gstr enc dec decm of_addr to_addr keep c n1 r h1 h2 n2 pre post s i,
+  keys_disjoint c -> c_route c (wait_key c (w_tunnel r)) = true -> c_ttl c <> 0 -> w_tunnel r <> [] ->
+  let s0 := fold_left (fun st h => final gstr enc dec decm of_addr to_addr keep c st h) pre s in
+  let s1 := final gstr enc dec decm of_addr to_addr keep c s0 h1 in
+  let r' := stamp r (now gstr s1) (now gstr s1 + c_ttl c) in
+  dec (enc r') = Some r' ->
+  Forall (fun o => ~ sets_tunnel (w_tunnel r) o) h2 ->
+  let s2 := final gstr enc dec decm of_addr to_addr keep c
+                  (fst (step gstr enc dec decm of_addr to_addr keep c s1 (ORegister n1 r))) h2 in
+  now gstr s2 <= now gstr s1 + c_ttl c -> bnow gstr s2 <= bnow gstr s1 + c_ttl c ->
+  exists j x, poll_run gstr enc dec decm of_addr to_addr keep c s n2 (w_tunnel r)
+                       (pre ++ (h1 ++ ORegister n1 r :: h2) :: post) i = Some (j, x)
+              /\ (j <= i + length pre + 1)%nat /\ (j = (i + length pre + 1)%nat -> x = r').
+Proof. exact poll_resolves_at_first_poll_after_publication. Qed.
+Print Assumptions C09_poll_resolves_at_first_poll_after_publication.
+
+(* ... and that poll comes at most pollMaxInterval after the previous one: the back-off (interval *= factor, capped) never
+   sleeps longer than the cap, for the regenerated constants and every number of misses *)
+Theorem C09_poll_interval_capped :
+  forall k, poll_interval PollInitialNs PollFactor PollMaxNs k <= PollMaxNs.
+Proof. exact (fun k => poll_interval_capped PollInitialNs PollFactor PollMaxNs k poll_init_le_max). Qed.
+Print Assumptions C09_poll_interval_capped.
+
 (* (2) no_stale, first form.  After Register(r), along every history in which nobody registers the id again
    (removals, lookups, ticks of BOTH clocks by any amounts, other ids: all allowed), a lookup from any node answers
    either exactly r - and then ExpiresAt has not passed - or NotFound/Expired.  No hypothesis on the backend: it
